@@ -31,7 +31,7 @@ RULE = (
 )
 ASSUMPTIONS = ["allele frequencies strictly positive", "lambda > 0 only on diploid gametes (the kernels raise otherwise)"]
 TOL = 1e-9
-STATS = {"dirty_scratch_calls": 0, "extra_padding_calls": 0}
+STATS = {"dirty_scratch_calls": 0, "extra_padding_calls": 0, "unsorted_genotype_calls": 0}
 
 SHAPES = [
     # (ploidy_p, ploidy_q, tau_p, tau_q)
@@ -55,7 +55,7 @@ def required(tier):
     return {"trio_configs": 3000, "progeny_evaluated": 30000, "sum_to_one_checked": 3000, "validity_checked": 5000,
             "gamete_sums": 1000, "configs_unbalanced": 300, "configs_lambda": 300, "configs_clonal": 100,
             "configs_unknown_parent": 300, "configs_zero_error": 300, "invalid_trios_seen": 300,
-            "dirty_scratch_calls": 5000, "extra_padding_calls": 5000,
+            "dirty_scratch_calls": 5000, "extra_padding_calls": 5000, "unsorted_genotype_calls": 5000,
             "configs_single_parent_partial_transmission": 300, "pederr_traces_checked": 150, "pederr_steps_decided": 5000, "pederr_traces_parent_ploidy_above_progeny": 40, "pederr_traces_with_valid_and_invalid_steps": 40}
 
 
@@ -115,8 +115,16 @@ def kernel_trio(K, c, progeny):
         dlf = np.zeros(mp, dtype=np.float64)
     if mp > max(ploidy, len(c["par_p"]), len(c["par_q"])):
         STATS["extra_padding_calls"] += 1
+    progeny, par_p, par_q = list(progeny), list(c["par_p"]), list(c["par_q"])
+    if (h >> 5) & 1:
+        # the sampler's state rows are not sorted: the pmf is a function of the three genotypes as multisets
+        r2 = np.random.default_rng(h + 1)
+        progeny = [progeny[k] for k in r2.permutation(len(progeny))]
+        par_p = [par_p[k] for k in r2.permutation(len(par_p))]
+        par_q = [par_q[k] for k in r2.permutation(len(par_q))]
+        STATS["unsorted_genotype_calls"] += 1
     return float(K["trio_log_pmf"](
-        pad(progeny), pad(c["par_p"]), pad(c["par_q"]),
+        pad(progeny), pad(par_p), pad(par_q),
         len(c["par_p"]) if c["known_p"] else 0, len(c["par_q"]) if c["known_q"] else 0,
         c["tau_p"], c["tau_q"], c["lam_p"], c["lam_q"],
         c["err_p"] if c["known_p"] else 1.0, c["err_q"] if c["known_q"] else 1.0,
